@@ -451,9 +451,13 @@ pub fn emit_stress(out: &mut Out, p: &StressPlan) {
     });
     let produce_time = t0.elapsed();
     gate.open();
-    drop(h);
+    // every other run (by the case's seed) drops the last queue handle and the join handle from a frame that is
+    // unwinding from a panic: shutdown must drain, flush and close all the same
+    let unwinding = p.seed & 1 == 1;
+    crate::common::drop_placed(h, unwinding);
     let j0 = Instant::now();
-    drop(join);
+    crate::common::drop_placed(join, unwinding);
+    if unwinding { out.count("stress_handles_dropped_during_unwind"); }
     let join_time = j0.elapsed();
     let events = log.lock().unwrap().clone();
     let mut fl = flushes.lock().unwrap().clone();
